@@ -1002,6 +1002,39 @@ Section IndexInv.
       + inversion H; subst. apply index_add_inr in Ha. exists (id, d). split; [left; auto|tauto].
   Qed.
 
+  (* --- shape and totality without the invariant --- *)
+
+  Lemma add_all_shape ixs id d ixs' e :
+    add_all ixs (id, d) = (ixs', e) -> same_shape ixs ixs'.
+  Proof.
+    revert ixs' e. induction ixs as [|[n ix] t IH]; intros ixs' e H.
+    - simpl in H. inversion H; subst. constructor.
+    - rewrite add_all_cons in H.
+      destruct (index_add ix (id, d)) as [[[|] ix1]|e1] eqn:Ha.
+      + destruct (add_all t (id, d)) as [t' e'] eqn:Ht. inversion H; subst.
+        constructor; [|eapply IH; eauto]. split; auto. simpl. eapply index_add_same_def; eauto.
+      + inversion H; subst. constructor; [|apply same_shape_refl]. split; auto. simpl.
+        eapply index_add_same_def; eauto.
+      + inversion H; subst. apply same_shape_refl.
+  Qed.
+
+  Lemma add_docs_total ixs l :
+    (forall ni sd, In ni ixs -> In sd l -> covers_ok (snd ni) (snd sd)) ->
+    exists ixs', add_docs ixs l = (ixs', None) \/ add_docs ixs l = (ixs', Some EDup).
+  Proof.
+    revert ixs. induction l as [|[id d] l IH]; intros ixs C.
+    - simpl. eauto.
+    - rewrite add_docs_cons.
+      assert (C0 : Forall (fun a => covers_ok (snd a) d) ixs).
+      { apply Forall_forall. intros a Ha. apply (C a (id, d)); [auto|left; auto]. }
+      destruct (add_all_total ixs id d C0) as [ixs1 [Ha|Ha]]; rewrite Ha; [|eauto].
+      apply IH. intros ni' sd Hin' Hsd.
+      destruct (same_shape_in _ _ ni' (same_shape_sym _ _ (add_all_shape _ _ _ _ _ Ha)) Hin')
+        as [ni0 [Hin0 [_ Hs]]].
+      apply (covers_ok_same (snd ni0) (snd ni') _ (same_def_sym _ _ Hs)).
+      apply C; [auto|right; auto].
+  Qed.
+
 End IndexInv.
 
 Print Assumptions index_add_ok.
